@@ -9,7 +9,7 @@ import re._parser as sre_parse  # regex syntax trees (python >= 3.11)
 
 from ..core import (alpha, AnalysisError, call_name, const, dotted, is_const, kwarg, local_defs, norm, origin,
                     parent_map, walk_local)
-from ..facts import assigned_subscripts, default_of, guards_of, returns_of, enclosing_loops, if_leaves
+from ..facts import iterations, assigned_subscripts, default_of, guards_of, returns_of, enclosing_loops, if_leaves
 from ..rules import walk as W
 
 CV = "synkit/CRN/Hypergraph/conversion.py"
@@ -212,18 +212,44 @@ def species_graph(rep):
     datas = [b_["d"] for _, b_ in pfind(f"$d = {GW}[{rv}][{pv}]", w.node)]
     DATA = datas[0] if datas else "?"
 
-    def local_for(key):
-        return [nm for nm, ds in wdefs.items() for d_ in ds if d_.kind == "assign" and pmatch(f"{DATA}.get('{key}')", d_.value) is not None]
-    upd = {norm(t): norm(v) for t, v, st in assigned_subscripts(w.node)}
-    srm, spm, via = local_for("stoich_r_map"), local_for("stoich_p_map"), local_for("via")
-    ok = bool(srm) and bool(spm) and upd.get(f"{srm[0]}[{eid}]") == rc and upd.get(f"{spm[0]}[{eid}]") == pc
+    def entry_of(e):
+        """(key, through_get) when `e` denotes the arc's entry data[key]: directly, or through a local bound to data[key] / data.get(key)"""
+        m_ = pmatch(f"{DATA}[$$k]", e)
+        if m_ is not None and isinstance(e.slice, ast.Constant):
+            return e.slice.value, False
+        if isinstance(e, ast.Name):
+            for d_ in wdefs.get(e.id, []):
+                if d_.kind != "assign":
+                    continue
+                if pmatch(f"{DATA}[$$k]", d_.value) is not None and isinstance(d_.value.slice, ast.Constant):
+                    return d_.value.slice.value, False
+                if pmatch(f"{DATA}.get($$k)", d_.value) is not None and isinstance(d_.value.args[0], ast.Constant):
+                    return d_.value.args[0].value, True
+        return None, False
+    stores = {}   # key -> (value text, through_get, container expr) for  <entry>[eid] = value
+    for t, v, st in assigned_subscripts(w.node):
+        if norm(t.slice) == eid:
+            k_, tg_ = entry_of(t.value)
+            if k_ is not None:
+                stores[k_] = (norm(v), tg_, t.value)
+    ok = stores.get("stoich_r_map", ("",))[0] == rc and stores.get("stoich_p_map", ("",))[0] == pc
     rep.ob("O16.2", "R3b", w, ok, "stoich_r_map[eid] = <reactant coeff>; stoich_p_map[eid] = <product coeff>",
            "a further reaction on the same species pair adds its own entry to both per-reaction maps (reactant coeff to stoich_r_map, product coeff to stoich_p_map)")
-    via_add = [x for x in walk_local(w.node) if via and isinstance(x, ast.Call) and norm(x.func) == f"{via[0]}.add"]
-    rep.ob("O16.2", "R3b", w, bool(via_add) and norm(via_add[0].args[0]) == eid, "via.add(eid)", "and registers its id in `via`")
-    for nm, key in ((srm, "stoich_r_map"), (spm, "stoich_p_map"), (via, "via")):
-        # a missing entry is created *and stored back* on the arc
-        okk = bool(nm) and pall([f"if {nm[0]} is None:\n    {nm[0]} = $$new\n    {DATA}['{key}'] = {nm[0]}"], w.node) is not None
+    via_add = [(x, entry_of(x.func.value)) for x in walk_local(w.node) if isinstance(x, ast.Call) and isinstance(x.func, ast.Attribute) and x.func.attr == "add"
+               and entry_of(x.func.value)[0] == "via"]
+    rep.ob("O16.2", "R3b", w, bool(via_add) and norm(via_add[0][0].args[0]) == eid, "via.add(eid)", "and registers its id in `via`")
+    used = {"stoich_r_map": stores.get("stoich_r_map"), "stoich_p_map": stores.get("stoich_p_map"),
+            "via": (None, via_add[0][1][1], via_add[0][0].func.value) if via_add else None}
+    for key in ("stoich_r_map", "stoich_p_map", "via"):
+        u_ = used[key]
+        if u_ is None:
+            okk = False
+        elif not u_[1]:
+            okk = True   # data['key'] itself (or a local bound to it): the arc's own object
+        else:
+            # a local read with .get(): a missing entry must be created *and stored back* on the arc
+            nm_ = norm(u_[2])
+            okk = pall([f"if {nm_} is None:\n    {nm_} = $$new\n    {DATA}['{key}'] = {nm_}"], w.node) is not None
         rep.ob("O16.2", "R3b", w, okk, f"data.get('{key}')", f"the updated object is the arc's own '{key}' entry (created and stored if missing)")
     # reader
     G = r.params[0]
@@ -342,23 +368,56 @@ def _cls(sub):
 
 
 def _term_shape(fi, t):
-    """`f"{s}" if c == 1 else f"{c}{s}"` with s the loop variable over the side's species and c that species' coefficient"""
+    """`f"{s}" if c == 1 else f"{c}{s}"` with s running over the side's species in sorted order and c that species' coefficient.
+    The iteration may be a loop or a comprehension, directly over sorted(d) or over an intermediate generator of (coefficient, species) pairs."""
     m = pmatch("f'{$s}' if $c == 1 else f'{$c}{$s}'", t)
     if m is None:
         return False
-    tl = enclosing_loops(parent_map(fi.node), t, fi.node)
-    if not tl or norm(tl[0].target) != m["s"]:
+    pm = parent_map(fi.node)
+    its = iterations(pm, t, fi.node)
+    if not its:
         return False
-    it = pmatch("sorted($$d.keys())", tl[0].iter) or pmatch("sorted($$d)", tl[0].iter)
+    defs = local_defs(fi.node)
+    target, iter_ = its[0].target, origin(defs, its[0].iter)
+    env = {}
+    if isinstance(iter_, (ast.GeneratorExp, ast.ListComp)) and len(iter_.generators) == 1 and not iter_.generators[0].ifs \
+            and isinstance(target, ast.Tuple) and isinstance(iter_.elt, ast.Tuple) and len(target.elts) == len(iter_.elt.elts) \
+            and all(isinstance(x, ast.Name) for x in target.elts):
+        env = {x.id: e for x, e in zip(target.elts, iter_.elt.elts)}
+        target, iter_ = iter_.generators[0].target, iter_.generators[0].iter
+    if not isinstance(target, ast.Name) or norm(env.get(m["s"], ast.Name(id=m["s"], ctx=ast.Load()))) != target.id:
+        return False
+    it = pmatch("sorted($$d.keys())", iter_) or pmatch("sorted($$d)", iter_)
     if it is None:
         return False
-    csrc = norm(origin(local_defs(fi.node), ast.Name(id=m["c"], ctx=ast.Load())))
-    return csrc in (f"int({it['d']}[{m['s']}])", f"{it['d']}[{m['s']}]")
+    holder_defs = local_defs(its[0].holder) if isinstance(its[0].holder, ast.For) else {}
+    csrc = norm(env[m["c"]]) if m["c"] in env else norm(origin(holder_defs or defs, ast.Name(id=m["c"], ctx=ast.Load())))
+    return csrc in (f"int({it['d']}[{target.id}])", f"{it['d']}[{target.id}]")
+
+
+def _formatter(rep, pr):
+    """the side formatter of the reaction-string printer: the one function of the module (nested in the printer or not) that holds the term format"""
+    mi = rep.repo.module(CV)
+    cands = []
+    for q, fi in mi.funcs.items():
+        if fi.node is pr.node:
+            continue
+        called = any(isinstance(c_, ast.Call) and isinstance(c_.func, ast.Name) and c_.func.id == fi.node.name for c_ in walk_local(pr.node))
+        substituted = any(x.split(" ")[0] == fi.node.name for x in mi.inlined)  # a helper extracted later whose body was put back at its call sites
+        if not (q.startswith(pr.qual + ".<locals>.") or called or substituted):
+            continue
+        if any(isinstance(n, ast.IfExp) and isinstance(n.body, ast.JoinedStr) and isinstance(n.orelse, ast.JoinedStr) for n in walk_local(fi.node)):
+            cands.append(fi)
+    if len(cands) != 1:
+        raise AnalysisError(f"side formatter of hypergraph_to_rxn_strings not identified ({len(cands)} candidates)")
+    rep.touch(cands[0])
+    return cands[0]
 
 
 def strings(rep):
     pr = rep.f(CV, "hypergraph_to_rxn_strings")
-    fmt = rep.f(CV, "hypergraph_to_rxn_strings.<locals>.fmt")
+    fmt = _formatter(rep, pr)
+    FMT = fmt.node.name
     ps = rep.f(RX, "RXNSide.from_str")
     ad = rep.f(HG, "CRNHyperGraph.add_rxn_from_str")
     # printer pieces
@@ -379,12 +438,18 @@ def strings(rep):
         if isinstance(n, ast.JoinedStr):
             fv = [v.value for v in n.values if isinstance(v, ast.FormattedValue)]
             cs = [v.value for v in n.values if isinstance(v, ast.Constant)]
-            if len(fv) == 2 and len(cs) == 1 and all(isinstance(x, ast.Name) for x in fv):
+            if len(fv) == 2 and len(cs) == 1:
                 l_, r_ = (origin(pdefs, x) for x in fv)
-                ml, mr = pmatch("fmt($e.reactants)", l_), pmatch("fmt($e.products)", r_)
-                if (ml and mr) or (pmatch("fmt($e.products)", l_) and pmatch("fmt($e.reactants)", r_)):
+                # the two sides are formatted by the formatter (a call, or its body substituted for a helper extracted later)
+                def side_of(e_):
+                    names = {a_.attr for a_ in ast.walk(e_) if isinstance(a_, ast.Attribute) and a_.attr in ("reactants", "products")}
+                    owners = {norm(a_.value) for a_ in ast.walk(e_) if isinstance(a_, ast.Attribute) and a_.attr in ("reactants", "products")}
+                    formatted = pmatch(f"{FMT}($$x)", e_) is not None or any(isinstance(n_, ast.IfExp) and isinstance(n_.body, ast.JoinedStr) for n_ in ast.walk(e_))
+                    return (names.pop(), owners.pop()) if len(names) == 1 and len(owners) == 1 and formatted else None
+                sl_, sr_ = side_of(l_), side_of(r_)
+                if sl_ and sr_ and {sl_[0], sr_[0]} == {"reactants", "products"}:
                     line, arrow = [n], cs[0]
-                    ok = bool(ml and mr and ml["e"] == mr["e"])
+                    ok = sl_[0] == "reactants" and sr_[0] == "products" and sl_[1] == sr_[1]
     rep.ob("O16.3", "R3d", pr, ok, "left = fmt(e.reactants); right = fmt(e.products)", "reactants are printed left of the arrow, products right")
     # parser structure
     regs = {}
